@@ -163,7 +163,12 @@ func diffLines(a, b []string) string {
 	return strings.Join(out, "\n")
 }
 
-func checkPlainGraph(run *core.Run, m *openfgav1.AuthorizationModel, rebuilds int) string {
+func checkPlainGraph(run *core.Run, m *openfgav1.AuthorizationModel, rebuilds int) (dot string) {
+	run.Guard(&core.Case{Kind: "model", Model: modelJSON(m)}, func() { dot = checkPlainGraph1(run, m, rebuilds) })
+	return dot
+}
+
+func checkPlainGraph1(run *core.Run, m *openfgav1.AuthorizationModel, rebuilds int) string {
 	c := &core.Case{Kind: "model", Model: modelJSON(m)}
 	snap := proto.Clone(m).(*openfgav1.AuthorizationModel)
 	g, err := graph.NewAuthorizationModelGraph(m)
